@@ -1742,8 +1742,8 @@ def run(ctx):
     tree_cases = [c for c in corpus if c.get("kind") == "tree"]
     tree_cases += near_collision_cases(ctx.rng)
     tree_cases += audit_tree_cases()
-    n_valid = ctx.n(85, 900)
-    n_bad = ctx.n(22, 240)
+    n_valid = ctx.n(85, 650)
+    n_bad = ctx.n(22, 180)
     tree_cases += [gen_tree_case(ctx.rng) for _ in range(n_valid)]
     tree_cases += [gen_tree_case(ctx.rng, bad=True) for _ in range(n_bad)]
     t_items = run_tree_stream(ctx, tree_cases)
@@ -1765,7 +1765,7 @@ def run(ctx):
         DIM["tree:entries=1000+(oracle-only)"] += 1
 
     hist_cases = [c for c in corpus if c.get("kind") == "history"] + fixed_histories()
-    hist_cases += [gen_history(ctx.rng) for _ in range(ctx.n(45, 500))]
+    hist_cases += [gen_history(ctx.rng) for _ in range(ctx.n(45, 350))]
     h_items = run_history_stream(ctx, hist_cases)
 
     corpus_dirs = [c["files"] for c in corpus if c.get("kind") == "build"]
@@ -1784,7 +1784,7 @@ def run(ctx):
         {"docs/cafe\u0301.txt": "08" * 4, "docs/caf\u00e9.txt": "09" * 4},
         {"e\u0301/f": "0a", "\u00e9/f": "0b", "\u1112\u1161\u11ab": "0c", "\ud55c": "0d"},
     ]
-    n_dirs = ctx.n(5, 18)
+    n_dirs = ctx.n(5, 13)
     dirs = corpus_dirs + fixed_dirs + [gen_dir(ctx.rng) for _ in range(n_dirs)]
     b_items = run_build_stream(ctx, dirs, per_dir=ctx.n(5, 48) if ctx.tier == "quick" else None)
     b_items += run_build_stream(ctx, special_dirs, per_dir=ctx.n(1, 6))
